@@ -168,11 +168,15 @@ def alt_name_uri(rng, comps):
 
 def check_pair(ctx, a, b):
     exp = len(a) <= len(b) and [bytes(x) for x in b[:len(a)]] == [bytes(x) for x in a]
-    forms_a = [a, rc.enc_name(a), rc.name_to_uri(a, canonical=True), alt_name_uri(ctx.rng, a), alt_name_uri(ctx.rng, a)]
-    forms_b = [b, rc.enc_name(b), rc.name_to_uri(b, canonical=True), alt_name_uri(ctx.rng, b), alt_name_uri(ctx.rng, b)]
-    ia, ib = ctx.rng.randrange(5), ctx.rng.randrange(5)
+    forms_a = [a, rc.enc_name(a), rc.name_to_uri(a, canonical=True), alt_name_uri(ctx.rng, a), alt_name_uri(ctx.rng, a),
+               tuple(a), [memoryview(bytes(x)) for x in a], (x for x in list(a)), memoryview(rc.enc_name(a))]
+    forms_b = [b, rc.enc_name(b), rc.name_to_uri(b, canonical=True), alt_name_uri(ctx.rng, b), alt_name_uri(ctx.rng, b),
+               tuple(b), [memoryview(bytes(x)) for x in b], (x for x in list(b)), memoryview(rc.enc_name(b))]
+    ia, ib = ctx.rng.randrange(9), ctx.rng.randrange(9)
+    if 5 in (ia, ib):
+        ctx.event('is-prefix-with-a-tuple')
     fa, fb = forms_a[ia], forms_b[ib]
-    if ia >= 3 and ib >= 3:
+    if ia in (3, 4) and ib in (3, 4):
         ctx.event('is-prefix-both-uris-other-spelling')
     # an alternative spelling must denote the same name in the first place (else it is not judged: the spelling rules are the library's)
     for alt, comps in ((fa, a), (fb, b)):
@@ -497,7 +501,7 @@ def run(ctx):
         ctx.case(None, nontrivial=False, count=len(pool) ** 2)
         ctx.extra['all_pairs_pool'] = len(pool)
     for k in ('wire', 'canonical-uri', 'uri', 'normalize', 'is-prefix-true', 'is-prefix-false', 'name-order',
-              'component-order', 'history', 'history-mutable-result-edited', 'uri-of-typed-component-that-is-no-number', 'same-list-object-converted-again-after-an-in-place-edit', 'is-prefix-both-uris-other-spelling'):
+              'component-order', 'history', 'history-mutable-result-edited', 'uri-of-typed-component-that-is-no-number', 'same-list-object-converted-again-after-an-in-place-edit', 'is-prefix-both-uris-other-spelling', 'is-prefix-with-a-tuple'):
         ctx.need_event(k)
     ctx.assumptions = ['URI convention is the one python-ndn documents (no extra-period rule; = and % escaped)',
                        'shorthand URI round trip is demanded only for canonically encoded typed numbers']
